@@ -43,6 +43,8 @@ pub struct Facts {
     pub sched_peek: Option<(usize, usize, usize, usize)>,
     /// per phase: what the world looked like at the first quiescence (gates as the program left them)
     pub q1: Vec<Q1Snap>,
+    /// per phase: the same after every gate has been opened (input streams still open)
+    pub q2: Vec<Q1Snap>,
     pub final_try_sync: Vec<(usize, String)>,
     pub pool_after_despawn: Vec<(usize, u64, usize)>,
     pub abandoned: Option<String>,
@@ -158,6 +160,29 @@ fn release_resumers_and_handles(only_resumers: bool) {
     }
 }
 
+fn take_snapshot(pi: usize, code: &'static str) -> Q1Snap {
+    let sq = ev(code, pi as i64, 0);
+    let world = w();
+    let mut snap = Q1Snap { seq: sq, ..Default::default() };
+    for r in world.ops.iter() {
+        if r.phase == pi && r.kind.has_body() && r.inv.is_some() && r.fin.is_none() {
+            snap.unfinished.push(r.id);
+            if r.start.is_some() {
+                snap.started_unfinished.push(r.id);
+            }
+        }
+    }
+    for o in world.objs.iter() {
+        snap.strong.push(o.arc.as_ref().map(|a| Arc::strong_count(a)));
+        snap.value_drops.push(o.value_drops);
+        snap.queues.push(o.queue.as_ref().and_then(|q| q.verif_peek()));
+    }
+    for st in world.streams.iter() {
+        snap.streams.push((st.drops, st.closure_drops));
+    }
+    snap
+}
+
 fn controller(prog: Arc<Program>) {
     let f = facts();
     *f = Facts::default();
@@ -188,6 +213,18 @@ fn controller(prog: Arc<Program>) {
     for (pi, phase) in prog.phases.iter().enumerate() {
         w().phase = pi;
         facts().stage = Some(Stage::Phase(pi));
+        if pi > 0 {
+            // the previous phase has drained completely: external events start out pending again
+            let world = w();
+            for g in world.gates.iter_mut() {
+                g.open = false;
+                g.opened_at = None;
+                g.wakers.clear();
+                g.stale.clear();
+                g.m = Arc::new(rt::sync::Mutex::new(false));
+                g.cv = Arc::new(rt::sync::Condvar::new());
+            }
+        }
         for c in &phase.ctl {
             match c {
                 CtlOp::SetMaxLazy(n) => {
@@ -256,25 +293,7 @@ fn controller(prog: Arc<Program>) {
         note_states();
         // first quiescence: external gates are as the program left them
         {
-            let sq = ev("quiescence1", pi as i64, 0);
-            let world = w();
-            let mut snap = Q1Snap { seq: sq, ..Default::default() };
-            for r in world.ops.iter() {
-                if r.phase == pi && r.kind.has_body() && r.inv.is_some() && r.fin.is_none() {
-                    snap.unfinished.push(r.id);
-                    if r.start.is_some() {
-                        snap.started_unfinished.push(r.id);
-                    }
-                }
-            }
-            for o in world.objs.iter() {
-                snap.strong.push(o.arc.as_ref().map(|a| Arc::strong_count(a)));
-                snap.value_drops.push(o.value_drops);
-                snap.queues.push(o.queue.as_ref().and_then(|q| q.verif_peek()));
-            }
-            for st in world.streams.iter() {
-                snap.streams.push((st.drops, st.closure_drops));
-            }
+            let snap = take_snapshot(pi, "quiescence1");
             let f = facts();
             while f.q1.len() <= pi {
                 f.q1.push(Q1Snap::default());
@@ -293,6 +312,15 @@ fn controller(prog: Arc<Program>) {
                 close_streams();
             }
             kernel::await_quiescence();
+            if rounds == 0 {
+                // second snapshot: every gate is open, the input streams are still open and silent
+                let snap = take_snapshot(pi, "quiescence2");
+                let f = facts();
+                while f.q2.len() <= pi {
+                    f.q2.push(Q1Snap::default());
+                }
+                f.q2[pi] = snap;
+            }
             rounds += 1;
             let pts: u64 = kernel::task_infos().iter().map(|t| t.points).sum();
             if all_callers_done(&names) || rounds >= 12 || (rounds >= 4 && pts == last_points) {
@@ -425,7 +453,7 @@ pub fn run_one(spec: &RunSpec) -> RunReport {
 
 impl Drop for RunReport {
     fn drop(&mut self) {
-        if self.result.outcome != Outcome::Completed {
+        if self.result.outcome != Outcome::Completed || !self.facts.teardown_complete {
             // leak the live parts of a dead world (handles, objects, wakers)
             let world = &mut *self.world;
             std::mem::forget(std::mem::take(&mut world.handles));
